@@ -5,7 +5,7 @@ import re
 from ..core import AnalysisError, norm
 from ..sim import check_reach
 from ..flow import handler_stack, first_catcher
-from .common import (effects, exceptions, paths_of, check_writers, arg_by_name, named_call_sites, call_sites_of)
+from .common import (dtext, effects, exceptions, paths_of, check_writers, arg_by_name, named_call_sites, call_sites_of)
 
 # raise functions that may reach the pass-through handler, with the reason they are accepted
 TRIAGE = {
@@ -55,11 +55,25 @@ def check_loop_exits(ctx, rule, paths):
                 hh = getattr(hh, '_parent', None)
             if hh is not None and norm(hh.type) == 'KeyboardInterrupt':
                 ok, why = True, 'interrupt'
+            if not ok and isinstance(par, ast.If):
+                # the guard tests a value handed back by a freshly extracted helper (e.g. a `None` end-of-input sentinel): what that value means
+                # is decided on the paths below (exit:only-eof-or-interrupt), not from this statement's text
+                tn = {x.id for x in ast.walk(par.test) if isinstance(x, ast.Name)}
+                from_helper = False
+                for st_ in fn_.body_nodes():
+                    if isinstance(st_, ast.Assign) and any(isinstance(t_, ast.Name) and t_.id in tn for t_ in st_.targets) and isinstance(st_.value, ast.Call):
+                        cs_ = repo.callgraph().site_of(fn_, st_.value)
+                        if cs_ is not None and any(is_new_function(g_) for g_ in cs_.targets):
+                            from_helper = True
+                if from_helper:
+                    ctx.check(True, rule, 'exit:%s:decided-on-paths' % type(n).__name__, f_pa.loc(n), 'loop exit guarded by a helper\'s result: decided by the path rule')
+                    continue
             ctx.check(ok, rule, 'exit:%s:%s' % (type(n).__name__, why or norm(par)[:40]), f_pa.loc(n), 'loop exit on %s' % why,
                       'the read loop can also be left at `%s` under `%s`: remaining lines are lost' % (norm(n), norm(par.test)[:60] if isinstance(par, ast.If) else type(par).__name__))
-    ctx.floor(rule, nb, 1, 'loop exits')
+    nfall = 0
     for p in paths:
         if p.outcome[0] == 'fall':
+            nfall += 1
             eof = [v for a, v in p.decisions if a.text in ("'' == input_file.readline()",)] + \
                   [not v for a, v in p.decisions if a.text in ('input_file.readline()', "0 < len(input_file.readline())")]
             intr = any(e.kind == 'handler' and e.extra == 'KeyboardInterrupt' for e in p.events)
@@ -67,6 +81,7 @@ def check_loop_exits(ctx, rule, paths):
                       'parse_all returns on path %s' % p.describe()[:160])
         elif p.outcome[0] == 'raise':
             ctx.violation(rule, 'exit:raises:%s' % p.outcome[1], f_pa.loc(), 'parse_all is left by %s on path %s' % (p.outcome[1], p.describe()[:120]))
+    ctx.floor(rule, nb + nfall, 2, 'loop exits (statements and returning paths) of parse_all')
 
 
 # exceptions that the (over-approximating) call graph lets escape but that cannot occur, with the rule that shows it
@@ -162,15 +177,29 @@ def run(ctx):
                 ctx.check([norm(a) for a in e.args] == ['message(input_file.readline().strip())[0]', 'message(input_file.readline().strip())[1]'], 'C08.1', 'decode:hands-over-result', f_pa.loc(e.node),
                           'the decoded (connection id, message) pair is handed over unmodified', 'hands over %s' % e.text[:140])
     ctx.floor('C08.1', nm, 1, 'message() call in parse_all')
-    # the latch is initially on and only an internal error turns it off
-    latch_writes = [n for n in f_pa.body_nodes() if isinstance(n, ast.Assign) and isinstance(n.targets[0], ast.Name) and n.targets[0].id == 'parse']
-    for n in latch_writes:
-        inh = n
-        while inh is not None and not isinstance(inh, ast.ExceptHandler):
-            inh = getattr(inh, '_parent', None)
-        val = n.value.value if isinstance(n.value, ast.Constant) else None
-        ctx.check((val is True and inh is None) or (val is False and inh is not None and norm(inh.type) != 'RuntimeError'), 'C08.1', 'latch:%s' % norm(n), f_pa.loc(n),
-                  'decoding starts enabled and is disabled only by the internal-error handler', 'decoding latch is written as %s %s' % (norm(n), 'inside a handler' if inh is not None else 'outside handlers'))
+    # the latch: decoding starts enabled and only an internal error (the catch-all handler) turns it off - decided on two-iteration paths:
+    # in the second iteration a decodable line is handed to the decoder exactly when the first iteration did not end in the catch-all handler
+    paths2 = paths if ctx.tier == 'thorough' else paths_of(repo, f_pa, may_raise=mr, while_unroll=2)
+    n_l2 = 0
+    latch_bad = None
+    for p in paths2:
+        its = sorted({e.loops[0] for e in p.events if e.loops}, key=lambda x: x[1])
+        if len(its) < 2:
+            continue
+        ev1 = [e for e in p.events if e.loops and e.loops[0] == its[0]]
+        ev2 = [e for e in p.events if e.loops and e.loops[0] == its[1]]
+        internal1 = any(e.kind == 'handler' and e.extra not in ('RuntimeError', 'KeyboardInterrupt') for e in ev1)
+        decoded2 = any(e.kind == 'call' and e.ftext == 'message' for e in ev2) and not any(e.kind == 'raised-by-call' and e.text.startswith('message(') for e in ev2)
+        if not decoded2:
+            continue
+        n_l2 += 1
+        hm2 = any(e.kind == 'call' and e.ftext == 'self.handle_message' for e in ev2)
+        if hm2 == internal1:
+            latch_bad = latch_bad or (p, internal1, hm2)
+    ctx.check(latch_bad is None, 'C08.1', 'latch:only-internal-error-disables', f_pa.loc(), 'decoding starts enabled and is disabled only by the internal-error handler',
+              'after a first line that %s an internal error, a decodable second line is %s to the decoder; path %s'
+              % (('raised' if latch_bad[1] else 'did not raise'), ('still handed' if latch_bad[2] else 'not handed'), latch_bad[0].describe()[:200]) if latch_bad else '')
+    ctx.floor('C08.1', n_l2, 4, 'two-line paths of parse_all with a decodable second line')
 
     # a message line must be decoded, never passed through: the acceptance part of C01 (language inclusion of the printer's
     # lines in what message() accepts) is a clause of C08 as well
@@ -189,7 +218,9 @@ def run(ctx):
         ctx.ok('C08.1', f_msg.loc(), 'message-lines-decoded', 'every sent/received message line of the printer language takes a decoding path of message() (%d obligations of C01.6)' % nacc)
     ctx.floor('C08.1', nacc, 4, 'line acceptance obligations')
     # ---- C08.2 -----------------------------------------------------------------------------------------------
-    handlers = [n for n in f_pa.body_nodes() if isinstance(n, ast.ExceptHandler)]
+    from .common import scope_nodes
+    hfunc = {id(n): g__ for g__, n in scope_nodes(repo, f_pa) if isinstance(n, ast.ExceptHandler)}
+    handlers = [n for g__, n in scope_nodes(repo, f_pa) if isinstance(n, ast.ExceptHandler)]
     pt = [h for h in handlers if any(isinstance(x, ast.Call) and norm(x.func) == 'self.out.unprocessed' for s in h.body for x in ast.walk(s))]
     if len(pt) != 1:
         raise AnalysisError('C08.2: expected exactly one pass-through handler in parse_all, found %d' % len(pt))
@@ -197,7 +228,7 @@ def run(ctx):
     calls = [x for s in h.body for x in ast.walk(s) if isinstance(x, ast.Call) and norm(x.func) == 'self.out.unprocessed']
     ctx.check(h.name is not None and all(norm(c.args[0]) == 'str(%s)' % h.name for c in calls if c.args), 'C08.2', 'handler:prints-exception-text', f_pa.loc(h),
               'the pass-through handler prints exactly the exception\'s text', 'the pass-through handler prints %s' % [norm(c)[:60] for c in calls])
-    reach = ex.reaching_handler(f_pa, h)
+    reach = ex.reaching_handler(hfunc.get(id(h), f_pa), h)
     funcs = {}
     from .common import effective_funcs
     for rs, chain in reach:
@@ -211,7 +242,7 @@ def run(ctx):
         if q in TRIAGE:
             ctx.ok('C08.2', site, key, 'accepted: ' + TRIAGE[q])
         else:
-            ch = ex.chain(f_pa, sites[0])
+            ch = ex.chain(hfunc.get(id(h), f_pa), sites[0])
             ctx.violation('C08.2', key, site,
                           'a %s raised in %s reaches parse_all\'s pass-through handler: a well-formed message line is replaced by the exception text (%s) and hidden by --supress'
                           % (sites[0].exc, sites[0].func.short, sites[0].text[:80]), {'chain': [g.short for g in ch] if ch else None})
@@ -351,10 +382,11 @@ def run(ctx):
         if len(set(sents)) > 1:
             continue            # infeasible: the flag does not change while printing
         nstr += 1
-        t = norm(p.outcome[1])
+        t = dtext(p.outcome[1])
         i1 = t.find('str(self.obj)')
         i2 = t.find("'.' + self.name")
-        i3 = t.find('.join([str(i) for i in self.args])')
+        m3 = re.search(r'\.join\((?:[\(\[]str\((\w+)\) for \1 in self\.args[\)\]]|map\(str, self\.args\))\)', t)
+        i3 = m3.start() if m3 else -1
         ctx.check(0 <= i1 < i2 < i3 and t.count('self.args') == 1, 'C08.7', 'display:target-name-all-args', f_str.loc(), 'a message is printed as target, .name and all of its arguments in order',
                   'Message.__str__ is %s' % t[:200])
         if sents:
@@ -366,17 +398,17 @@ def run(ctx):
     f_mshow = repo.func('message.Message.show')
     for p in paths_of(repo, f_mshow):
         sh = [e for e in p.events if e.kind == 'call' and e.ftext == 'out.show']
-        ctx.check(len(sh) == 1 and sh[0].text.endswith("+ ': ' + str(self))"), 'C08.7', 'display:line-is-message', f_mshow.loc(), 'the line shown is time, connection name and the message itself, once',
+        ctx.check(len(sh) == 1 and bool(sh[0].args) and re.search(r": ' \+ str\(self\)$", dtext(sh[0].args[0])) is not None, 'C08.7', 'display:line-is-message', f_mshow.loc(), 'the line shown is time, connection name and the message itself, once',
                   'Message.show prints %s' % [e.text[:120] for e in sh])
     vals = {'Arg.Int.value_to_str': 'str(self.value)', 'Arg.Float.value_to_str': 'str(self.value)', 'Arg.String.value_to_str': 'repr(self.value)', 'Arg.Fd.value_to_str': "'fd ' + str(self.value)",
-            'Arg.Object.value_to_str': 'str(self.obj)', 'Arg.Unknown.value_to_str': None, 'Arg.Array.value_to_str': None, 'Arg.Null.value_to_str': "'null ' + "}
+            'Arg.Object.value_to_str': 'str(self.obj)', 'Arg.Unknown.value_to_str': None, 'Arg.Array.value_to_str': None, 'Arg.Null.value_to_str': "'null "}
     for q, want in vals.items():
         f = repo.func(q)
         for p in paths_of(repo, f):
             if p.outcome[0] != 'return':
                 ctx.violation('C08.7', 'display:%s:no-value' % q, f.loc(), '%s does not return a string on path %s' % (q, p.describe()[:80]))
                 continue
-            t = norm(p.outcome[1])
+            t = dtext(p.outcome[1])
             if want is not None:
                 ctx.check(want in t, 'C08.7', 'display:%s' % q, f.loc(), '%s shows %s' % (q.split('.')[1], want), '%s shows %s' % (q, t[:100]))
             if q == 'Arg.Object.value_to_str':
@@ -385,7 +417,7 @@ def run(ctx):
             if q == 'Arg.Array.value_to_str':
                 none = [v for a, v in p.decisions if a.text == 'self.values is None']
                 if none and not none[0]:
-                    ctx.check('.join([str(v) for v in self.values])' in t, 'C08.7', 'display:array-elements', f.loc(), 'an array shows all of its elements in order')
+                    ctx.check(re.search(r'\.join\((?:[\(\[]str\((\w+)\) for \1 in self\.values[\)\]]|map\(str, self\.values\))\)', t) is not None, 'C08.7', 'display:array-elements', f.loc(), 'an array shows all of its elements in order')
     return ('path enumeration of parse_all with modelled failures of the decode step, exception flow into the pass-through handler over the '
             'RTA call graph (%d raise functions), structural exits, reads of the --supress switch, the output chain. Decided: %s. Undecided: %s'
             % (len(funcs), '; '.join(ctx.decided), '; '.join(ctx.undecided)))
